@@ -23,6 +23,79 @@ import (
 // Sandbox is <Root>/w (working tree, cwd of every goit child) and <Root>/home (HOME).
 type Sandbox struct {
 	Root string
+	// deep sandboxes: Root is a symbolic link (a short alias the harness works through) to RealRoot, whose path is
+	// long; goit is started with PWD = the real path, so that the paths IT builds come close to PATH_MAX
+	RealRoot string
+	deepBase string
+}
+
+// NewDeep makes a sandbox whose working tree has a real absolute path of exactly wLen bytes (at most 4095).
+func NewDeep(parent string, name string, wLen int) (*Sandbox, error) {
+	realParent, err := filepath.EvalSymlinks(parent)
+	if err != nil {
+		if err := os.MkdirAll(parent, 0o777); err != nil {
+			return nil, err
+		}
+		if realParent, err = filepath.EvalSymlinks(parent); err != nil {
+			return nil, err
+		}
+	}
+	base := filepath.Join(realParent, name+".d")
+	os.RemoveAll(base)
+	if err := os.MkdirAll(base, 0o777); err != nil {
+		return nil, err
+	}
+	remaining := wLen - len(base) - len("/r/w") // bytes to fill with "/<component>" segments
+	if remaining < 2 {
+		return nil, fmt.Errorf("deep sandbox: %d is too short for %s", wLen, base)
+	}
+	var comps []string
+	for remaining > 0 {
+		take := remaining
+		if take > 201 {
+			take = 201
+			if remaining-take == 1 { // never leave a lone "/"
+				take = 200
+			}
+		}
+		comps = append(comps, strings.Repeat("p", take-1))
+		remaining -= take
+	}
+	comps = append(comps, "r")
+	// directory by directory, relative to a descriptor: no path string ever exceeds PATH_MAX
+	cur, err := syscall.Open(base, syscall.O_RDONLY|syscall.O_DIRECTORY, 0)
+	if err != nil {
+		return nil, err
+	}
+	for _, c := range comps {
+		if err := syscall.Mkdirat(cur, c, 0o777); err != nil {
+			syscall.Close(cur)
+			return nil, err
+		}
+		next, err := syscall.Openat(cur, c, syscall.O_RDONLY|syscall.O_DIRECTORY, 0)
+		syscall.Close(cur)
+		if err != nil {
+			return nil, err
+		}
+		cur = next
+	}
+	for _, d := range []string{"w", "home"} {
+		if err := syscall.Mkdirat(cur, d, 0o777); err != nil {
+			syscall.Close(cur)
+			return nil, err
+		}
+	}
+	syscall.Close(cur)
+	real := base + "/" + strings.Join(comps, "/")
+	if len(real)+len("/w") != wLen {
+		return nil, fmt.Errorf("deep sandbox: length %d instead of %d", len(real)+2, wLen)
+	}
+	alias := filepath.Join(parent, name)
+	os.Remove(alias)
+	if err := os.Symlink(real, alias); err != nil {
+		return nil, err
+	}
+	return &Sandbox{Root: alias, RealRoot: real, deepBase: base}, nil
 }
 
 func New(parent string, name string) (*Sandbox, error) {
@@ -38,7 +111,13 @@ func New(parent string, name string) (*Sandbox, error) {
 
 func (s *Sandbox) W() string    { return filepath.Join(s.Root, "w") }
 func (s *Sandbox) Home() string { return filepath.Join(s.Root, "home") }
-func (s *Sandbox) Destroy()     { os.RemoveAll(s.Root); DropCache(s.Root + "/") }
+func (s *Sandbox) Destroy() {
+	os.RemoveAll(s.Root)
+	if s.deepBase != "" {
+		os.RemoveAll(s.deepBase)
+	}
+	DropCache(s.Root + "/")
+}
 
 // CheckNoAncestorGoit: FindGoitRoot walks upwards; a .goit in an ancestor would be adopted.
 func CheckNoAncestorGoit(dir string) error {
@@ -136,6 +215,9 @@ func (s *Sandbox) Run(goit string, argv []string, o RunOpts) *Result {
 	if d := os.Getenv("GOCOVERDIR"); d != "" {
 		// tools/coverage.sh only: a goit built with -cover drops its counters there
 		env = append(env, "GOCOVERDIR="+d)
+	}
+	if s.RealRoot != "" && strings.HasPrefix(cmd.Dir, s.Root) {
+		env = append(env, "PWD="+s.RealRoot+strings.TrimPrefix(cmd.Dir, s.Root))
 	}
 	cmd.Env = env
 	cmd.Stdout = fo
